@@ -7,6 +7,7 @@ from . import build
 
 SHIPPED = [
     "2018_JCP_149_064113/coulomb_atoms/power_bounded.ini",
+    "2018_JCP_149_064113/coulomb_atoms/power_bounded_dump.ini",
     "2018_JCP_149_064113/coulomb_atoms/cell_bounded.ini",
     "2018_JCP_149_064113/coulomb_atoms/cell_veto.ini",
     "2018_JCP_149_064113/dipoles/atom_factors.ini",
@@ -23,7 +24,9 @@ SHIPPED = [
     "2018_JCP_149_064113/water/single_molecule.ini",
     "hard_disk_dipoles/single_hard_disk_dipole.ini",
 ]
-# power_bounded_dump.ini is used by C19; hard_disk_dipoles(.ini|_cells.ini) need MDAnalysis (PDB input), absent here.
+# power_bounded_dump.ini: its dumping events are committed in history runs (with a drawn dumping interval) but the dump file
+# itself is not written there (the instrumented mediator is not meant to be pickled); C19 writes and resumes real dumps.
+# hard_disk_dipoles(.ini|_cells.ini) need MDAnalysis (PDB input), absent here.
 
 
 def shipped_text(rel):
@@ -126,7 +129,8 @@ def config_case(draw, bases=None, generated=True, min_end=None, sampling_focus=F
     if gen:
         if n_shipped >= 2:
             big = draw(st.booleans())
-            N = draw(st.integers(2, 6 if ("coulomb_atoms" in base and big) else (4 if "water" not in base else 3)))
+            N = draw(st.integers(2, (12 if (cells_only and "cell" in base) else 6) if ("coulomb_atoms" in base and big)
+                                 else (4 if "water" not in base else 3)))
             if N != n_shipped:
                 edits.append(("RandomInputHandler", "number_of_root_nodes", str(N)))
                 for sec, val in sections_with(text, "number_event_handlers"):
@@ -165,6 +169,9 @@ def config_case(draw, bases=None, generated=True, min_end=None, sampling_focus=F
         for sec, val in sections_with(text, "initial_direction_of_motion"):
             if draw(st.booleans()):
                 edits.append((sec, "initial_direction_of_motion", str(draw(st.integers(0, dim - 1)))))
+    for sec, val in sections_with(text, "dumping_interval"):
+        # shipped interval 1100 would never be reached within an event budget: always draw one that is
+        edits.append((sec, "dumping_interval", repr(round(draw(st.floats(0.3, 20.0)), 4))))
     for sec, val in sections_with(text, "sampling_interval"):
         if sampling_focus or (gen and draw(st.booleans())):
             delta = draw(st.one_of(st.sampled_from([0.3, 0.1, 0.25, 0.7, 1.0, 0.56789]), st.floats(1e-2, 2.0)))
@@ -180,7 +187,11 @@ def config_case(draw, bases=None, generated=True, min_end=None, sampling_focus=F
             edits.append((sec, "end_of_run_time", repr(end)))
     seed = draw(st.integers(0, 2 ** 31))
     events = draw(st.integers(max_events[0], max_events[1]))
-    return {"base": base, "edits": [list(e) for e in edits], "seed": seed, "events": events}
+    case = {"base": base, "edits": [list(e) for e in edits], "seed": seed, "events": events}
+    if "cell" in base and gen and N >= 3 and draw(st.booleans()):
+        # initial configuration contracted into a corner of the box: several units per cell, surplus lists in use
+        case["cluster"] = draw(st.sampled_from([0.25, 0.4, 0.6]))
+    return case
 
 
 def materialise(case):
